@@ -12,13 +12,21 @@ NoRun == [op |-> "none"]
 MCKindSet == {"struct", "enum"}
 \* PartialEq is educed alongside with the same ignore choices (for the
 \* consequence a == b => same feed)
-MCTypeOptSet(k) == { [DefOpts EXCEPT !.traits = <<"PartialEq", "Hash">>] }
-MCVarOptSet(c) == { [DefVariant EXCEPT !.style = s] : s \in Styles }
+\* Enums also come with a primitive representation and explicit discriminants that differ from the positions
+\* (variant k, counted from 0, gets discriminant k + 1): whatever tag the implementation feeds for a variant, it
+\* must keep the variants apart -- a tag taken from the position for some variants and from the discriminant for
+\* others would not.
+MCTypeOptSet(k) ==
+  IF k = "enum" THEN { [DefOpts EXCEPT !.traits = <<"PartialEq", "Hash">>, !.repr = r] : r \in {"none", "usize", "i64"} }
+  ELSE { [DefOpts EXCEPT !.traits = <<"PartialEq", "Hash">>] }
+MCVarOptSet(c) ==
+  { [DefVariant EXCEPT !.style = s, !.disc = IF c.opts.repr = "none" THEN NoDisc ELSE NVariants(c) + 1] : s \in Styles }
 CONSTANT Narrow   \* TRUE: at most one variant wider than two fields (quick instance); FALSE: no such restriction
 MCFieldSet(c) ==
   IF NVariants(c) > 0 /\ Narrow /\ ~MayWiden(c) THEN {}
-  ELSE { [DefField EXCEPT !.hash = t, !.eq = IF t = Ignore THEN Ignore ELSE Own] : t \in Treatments }
-MCAdmissible(c) == Narrow => WideOK(c)
+  ELSE WithRef(c, { [DefField EXCEPT !.hash = t, !.eq = IF t = Ignore THEN Ignore ELSE Own] : t \in Treatments })
+\* (rustc itself refuses a representation on a zero-variant enum, E0084)
+MCAdmissible(c) == (Narrow => WideOK(c)) /\ (c.opts.repr # "none" => NVariants(c) >= 1)
 
 Init == BuildInit /\ run = NoRun
 
@@ -56,4 +64,7 @@ FeedFunctionOfKey ==
     \A x \in Values(cfg) : \A y \in Values(cfg) :
       /\ (HashKey(cfg, x) = HashKey(cfg, y)) <=> (ImplHashFeed(cfg, x) = ImplHashFeed(cfg, y))
       /\ EqDecl(cfg, x, y) => ImplHashFeed(cfg, x) = ImplHashFeed(cfg, y)
+\* corpus-only exploration (used where only the configurations are wanted, not the run machine): states in which a
+\* run has begun are not expanded
+CorpusOnly == run = NoRun
 =============================================================================
